@@ -49,6 +49,9 @@ const (
 type c01Knobs struct {
 	Trust    string `json:"trust"`     // md1 | md1-nouse | md2 | md2-nouse | pinned | fingerprint
 	EncDecoy bool   `json:"enc_decoy"` // IdP metadata additionally lists rsa4 with use="encryption"; Mallory holds its private key
+	// Hooks: the application installs permissive ValidateAudienceRestriction / ValidateRequestID hooks (both accept everything):
+	// what remains between a forged document and acceptance is the signature alone
+	Hooks bool `json:"permissive_validation_hooks,omitempty"`
 }
 
 type c01Op struct {
@@ -156,6 +159,7 @@ func c01GenOp(g *Rng, st *c01Step, k c01Knobs) c01Op {
 func genTamper(g *Rng, tier string) *Plan {
 	k := c01Knobs{Trust: c01Trusts[g.PickW(30, 10, 15, 5, 15, 25)]}
 	k.EncDecoy = g.Bool(0.45)
+	k.Hooks = g.Bool(0.2)
 	p := &Plan{Knobs: mustJSON(k)}
 	n := 1 + g.PickW(5, 3, 2)
 	rotateAt, cur := -1, k.Trust
@@ -1649,6 +1653,10 @@ func c01NewSP(k c01Knobs) *saml.ServiceProvider {
 		fp, algo := c01Fingerprint(rsaKeys[0]), c01FPAlgo
 		spv.IDPCertificateFingerprint = &fp
 		spv.IDPCertificateFingerprintAlgorithm = &algo
+	}
+	if k.Hooks {
+		spv.ValidateAudienceRestriction = func(*saml.Assertion) error { return nil }
+		spv.ValidateRequestID = func(saml.Response, []string) error { return nil }
 	}
 	return spv
 }
